@@ -55,7 +55,7 @@ def post_explore(ctx, res, pids, opts):
                    detail={"decoded": ms0, "expected": model.initial_state()})
     # probe: the BFS-tree history of the deepest state (<= 4 steps), run on the fresh env
     deepest = max(keys, key=lambda k: (depth[k], -seen[k])) if keys else None
-    probe = ctx.history_of(deepest)[:4] if deepest is not None else []
+    probe = ctx.history_of(deepest)[: (10 if "C05" in pids else 4)] if deepest is not None else []
 
     def run_probe(e):
         fp = []
@@ -83,6 +83,21 @@ def post_explore(ctx, res, pids, opts):
                 if s.tensor.tobytes() != key:
                     s.tensor[...] = np.frombuffer(key, dtype=s.tensor.dtype).reshape(s.tensor.shape)
                 got = env.current_state.tensor.tobytes()
+                if "C05" in pids and k == d0 and probe and (seen[key] % 3 == 0 or key == deepest):
+                    # C05 across episodes: the same history after this reset must pay the same rewards as on a
+                    # fresh environment (whatever the reset left behind)
+                    fp5 = run_probe(env)
+                    counts["probe_steps"] += len(probe)
+                    rew_diff = [j for j, (x, y) in enumerate(zip(fp5, ref_probe)) if x[1] != y[1]]
+                    if rew_diff:
+                        ctx.report("C05", "reward_of_the_same_history_differs_after_reset", key=key,
+                                   detail={"probe_history": probe, "step": rew_diff[0],
+                                           "reward_after_reset": fp5[rew_diff[0]][1],
+                                           "reward_on_fresh_environment": ref_probe[rew_diff[0]][1]})
+                    env.current_state = s
+                    env.steps = k
+                    env.reset()
+                    got = env.current_state.tensor.tobytes()
                 if got != ref_bytes:
                     ms_r = lay.status(env.current_state.tensor)
                     pid = "C04"
